@@ -31,6 +31,7 @@ RULE += (
 RULE += (
          'Templates of a non-default encoding with bytes of that '
          'encoding in 13 contexts x 4 insertion forms. ')
+RULE += ('Round 8: the dotted entity with an empty modifier list. ')
 ASSUMPTIONS = [
     'whether a name is written x or name=x (an expression "e" or expr="e") '
     'is recorded in the compiled attribute dictionary, so it is pinned per '
